@@ -1891,6 +1891,24 @@ pub fn exec_op(env: &mut Env, op: &Op, bag: &mut Vec<Handle>, fr: &mut Frame) {
                 drop(f0);
             }
         }
+        Op::Shutdown { take } => {
+            if let Some(core) = env.core() {
+                let before = core.not_shutdown();
+                if take {
+                    let r = core.shutdown_reason();
+                    let after = core.not_shutdown();
+                    hx(|h| {
+                        h.ev(33, r.is_some() as u64, after as u64);
+                        if r.is_some() == before || !after {
+                            h.viol(&["C15"], "shutdown-flag", "shutdown_reason()/not_shutdown() disagree".to_string());
+                        }
+                    });
+                } else {
+                    core.shutdown(StopCause::Stopped);
+                    hx(|h| h.tr(|| "core.shutdown(Stopped)".to_string()));
+                }
+            }
+        }
         Op::Run { .. } | Op::DropStakker => {}
     }
 }
